@@ -40,6 +40,8 @@ pub fn build_runtime(k: i32) -> Runtime<NoCtx> {
     let mut lib = Library::new();
     lib.add(Type::clone::<Val<Tz>>("Tz", "", location!()).unwrap().into());
     lib.add(Function::new("mkz", "", vec![], || -> Val<Tz> { Val(Tz::new()) }, location!()).unwrap().into());
+    // takes (and drops) a copy of a zero-sized value
+    lib.add(Function::new("hz", "", vec!["z"], |_z: Val<Tz>| -> i32 { 0 }, location!()).unwrap().into());
     lib.add(Function::new("host_a", "", vec![], tagged_closure(500 + k), location!()).unwrap().into());
     lib.add(Function::new("host_b", "", vec![], tagged_closure(600 + k), location!()).unwrap().into());
     lib.add(Type::clone::<Val<Tr>>("Tr", "", location!()).unwrap().into());
@@ -76,7 +78,7 @@ pub fn build_runtime(k: i32) -> Runtime<NoCtx> {
 /// initialisers leave droppable temporaries behind, a zero-sized constant.
 pub fn script_files(v: i32) -> Vec<(String, String)> {
     let root = format!(
-        "record Conf {{\n    t: Tr,\n    n: i32,\n}}\nconst K: Tr = mk({k});\nconst Z: Tz = mkz();\nconst C: Conf = Conf {{ t: mk({c}), n: 5 }};\nconst SAME: bool = REG == REG;\nconst N: i32 = C.n + K.tag() - K.tag();\nfn f(x: i32) -> i32 {{\n    x * {v} + K.tag() + REG.tag() + host() + host_a() - host_b() + C.n - N + (if SAME {{ 0 }} else {{ 1000 }}) + C.t.tag() - {c} + m1.g() - {m}\n}}\nfn other(x: i32) -> i32 {{\n    K.tag() - x\n}}\n",
+        "record Conf {{\n    t: Tr,\n    n: i32,\n}}\nconst K: Tr = mk({k});\nconst Z: Tz = mkz();\nconst C: Conf = Conf {{ t: mk({c}), n: 5 }};\nconst SAME: bool = REG == REG;\nconst N: i32 = C.n + K.tag() - K.tag();\nfn f(x: i32) -> i32 {{\n    x * {v} + K.tag() + REG.tag() + host() + host_a() - host_b() + C.n - N + (if SAME {{ 0 }} else {{ 1000 }}) + C.t.tag() - {c} + m1.g() - {m} + hz(Z)\n}}\nfn other(x: i32) -> i32 {{\n    K.tag() - x\n}}\n",
         k = 300 + v,
         c = 700 + v,
         m = 800 + v
